@@ -15,14 +15,12 @@ def main(argv):
         print(__doc__)
         return 2
     if argv[0] == "setup":
-        rc, out = sh("coq_makefile -f _CoqProject -o Makefile", cwd=COQ, timeout=60)
-        if rc:
-            print(out)
-            return rc
-        rc, out = sh(f"timeout 3000 make -j{NPROC} 2>&1", cwd=COQ, timeout=3030)
-        print(out[-3000:])
-        if rc:
-            return rc
+        r = Run("SETUP", "quick", 0)
+        ok = r.coq_build(timeout=3000)
+        print(r.build_log[-3000:])
+        if not ok:
+            print("setup: stale/broken files:", r.build_failed_files)
+            return 1
         from harness import selftest
         return selftest.run()
     pid = argv[0].upper()
